@@ -16,7 +16,7 @@ structure IxIn where
   primary : Bool
   modeU : Bool
   containsKey : Bool
-  uniqueEmpty : Bool   -- uniqueIndexEmpty(rec, ix.Ixspec)
+  fieldsEmpty : List Bool -- per field of ix.Ixspec.Fields: rec.GetRaw(f) == ""
   changed : Bool       -- update: oldkeys[i] != newkeys[i] (Output: true)
   present : Bool       -- ov.Lookup(key) != 0, resp. ti.Nrows > 0 for key()
   key : Key
@@ -25,9 +25,9 @@ deriving Repr
 /-- is the index duplicate-checked for this record.  `upd` = the call comes from `update`,
 which has no `key()` branch (the empty key never changes). -/
 def checked (upd : Bool) (x : IxIn) : Bool :=
-  if upd then x.changed && Gsu.Gen.Check.needsDupCheck x.primary x.modeU x.containsKey x.uniqueEmpty
+  if upd then x.changed && Gsu.Gen.Check.needsDupCheck x.primary x.modeU x.containsKey (Gsu.Gen.Check.uniqueIndexEmpty x.fieldsEmpty)
   else if x.emptyKey then true
-  else Gsu.Gen.Check.needsDupCheck x.primary x.modeU x.containsKey x.uniqueEmpty
+  else Gsu.Gen.Check.needsDupCheck x.primary x.modeU x.containsKey (Gsu.Gen.Check.uniqueIndexEmpty x.fieldsEmpty)
 
 def readKey (upd : Bool) (x : IxIn) : Key := if !upd && x.emptyKey then [] else x.key
 
